@@ -79,7 +79,17 @@ def run(ctx, out):
         before = xcp.snapshot(os.fsencode(d))
         pre_dst = {p: e for p, e in before.items() if p.startswith(b"dst")}
         driver = rng.choice(["parfile", "parblock"])
-        argv = [ctx.bins["xcp"], "-r", "-n", "--driver", driver, "-w", str(rng.choice([1, 2, 4])), src, dst]
+        # -n combined with the backup modes: a collision must still change nothing (no rename to <name>.~N~ either)
+        extra = rng.choice([[], [], ["--backup", "numbered"], ["--backup", "auto"], ["--backup", "numbered", "--fsync"]])
+        if extra[:2] == ["--backup", "auto"]:
+            for c in collisions:
+                tp = treecase.rust_join(tbase, c)
+                if os.path.isfile(tp) and not os.path.islink(tp):
+                    open(tp + b".~3~", "wb").write(b"older backup")
+            before = xcp.snapshot(os.fsencode(d))
+            pre_dst = {p: e for p, e in before.items() if p.startswith(b"dst")}
+        out.count("with_" + ("_".join(x.strip("-") for x in extra) or "plain"))
+        argv = [ctx.bins["xcp"], "-r", "-n", "--driver", driver, "-w", str(rng.choice([1, 2, 4]))] + extra + [src, dst]
         r = xcp.run_supervised(sup, argv, d, d, tag="n", seed=rng.randrange(1 << 30), hold_permille=rng.choice([0, 150, 400]),
                                hold_maxms=3, timeout_ms=30000)
         after = xcp.snapshot(os.fsencode(d))
@@ -134,7 +144,8 @@ def run(ctx, out):
             elif kind == "file0":
                 open(p, "wb").close()
             elif kind == "link":
-                os.symlink("s0", p)
+                open(os.path.join(d, "link-target"), "wb").write(b"lt")
+                os.symlink("link-target", p)
             elif kind == "fifo":
                 os.mkfifo(p)
             else:
@@ -167,7 +178,7 @@ def run(ctx, out):
         out.count("multi_%s_on_%s" % (sk, ck if collide else "nothing"))
         bad = None
         for p, e in before.items():
-            if not p.startswith(b"dst/") and p not in (b"live-target",):
+            if not p.startswith(b"dst/") and p not in (b"live-target", b"link-target"):
                 continue
             a = after.get(p)
             keys = ("kind", "mode", "size", "sha", "link", "rdev") + (("mtime_ns",) if e["kind"] == "file" else ())
@@ -183,6 +194,43 @@ def run(ctx, out):
         elif not collide and r.exit != 0:
             out.corr("R1-noclobber-no-collision-failed", rep, "exit 0", r.exit)
         shutil.rmtree(d, ignore_errors=True)
+
+    # single-file sources: -n with -T / --target-directory / backup modes / -L, onto every kind of existing entry
+    for driver in ("parfile", "parblock"):
+        for flags in ([], ["-T"], ["--backup", "numbered"], ["--backup", "auto"], ["-T", "--backup", "numbered"], ["-L"], ["-L", "-T"]):
+            for dkind in ("file", "livelink", "dangling", "fifo", "emptyfile"):
+                d = os.path.join(d0, "sf_%s_%s_%s" % (driver, "".join(f.strip("-")[:2] for f in flags), dkind))
+                os.makedirs(os.path.join(d, "dd"))
+                open(os.path.join(d, "src.bin"), "wb").write(b"new data " * 300)
+                os.symlink("src.bin", os.path.join(d, "srclink"))
+                tp = os.path.join(d, "dd", "target")
+                if dkind == "file":
+                    open(tp, "wb").write(b"PRE-EXISTING")
+                elif dkind == "emptyfile":
+                    open(tp, "wb").close()
+                elif dkind == "livelink":
+                    open(os.path.join(d, "live-target"), "wb").write(b"live")
+                    os.symlink(os.path.join(d, "live-target"), tp)
+                elif dkind == "dangling":
+                    os.symlink(os.path.join(d, "outside-target"), tp)
+                else:
+                    os.mkfifo(tp)
+                if "auto" in flags and dkind in ("file", "emptyfile"):
+                    open(tp + ".~2~", "wb").write(b"older")
+                srcarg = "srclink" if "-L" in flags else "src.bin"
+                before = xcp.snapshot(os.fsencode(d))
+                argv = [ctx.bins["xcp"], "-n", "--driver", driver, "-w", "2"] + flags + [srcarg, "dd/target"]
+                r = xcp.run_supervised(sup, argv, d, d, tag="sf", timeout_ms=30000)
+                after = xcp.snapshot(os.fsencode(d))
+                out.case(("single", driver, tuple(flags), dkind), True)
+                out.count("single_file_source")
+                rep = dict(kind="single-file", argv=argv[1:], existing=dkind, exit=r.exit, stderr=r.stderr[-200:])
+                diff = [x for x in xcp.snap_diff(before, after, ignore=("ino", "nlink")) if not x[0].startswith(b".sup")]
+                if diff:
+                    out.violation("--no-clobber %s onto an existing %s: %r was changed (exit %d)" % (" ".join(flags), dkind, diff[0][0], r.exit), rep)
+                elif r.exit == 0:
+                    out.violation("--no-clobber %s onto an existing %s exited 0" % (" ".join(flags), dkind), rep)
+                shutil.rmtree(d, ignore_errors=True)
 
     # two sources mapping onto the same destination name, the first a symlink that points at an EXISTING
     # destination entry: the walker's existence check for the second source races with the creation of the
